@@ -35,9 +35,45 @@ class Inconclusive(Exception):
 # building library graphs from generated graphs
 
 
-def mk_scfg(g, payload="plain", trees=None) -> SCFG:
-    """g: ordered {name: (succ names)}.  payload: plain | bytecode | ast."""
+def dfs_backedges(g) -> dict:
+    """{block: [targets]}: the edges of g that close a cycle in a depth-first
+    search from the first block (targets that are on the DFS stack) - what a
+    caller of the dict / YAML front end would declare as back edges."""
+    out = {}
+    if not g:
+        return out
+    first = next(iter(g))
+    state = {}
+    stack = [(first, iter(g[first]))]
+    state[first] = 1
+    while stack:
+        n, it = stack[-1]
+        for t in it:
+            if t not in g:
+                continue
+            if state.get(t) == 1:
+                out.setdefault(n, []).append(t)
+            elif t not in state:
+                state[t] = 1
+                stack.append((t, iter(g[t])))
+                break
+        else:
+            state[n] = 2
+            stack.pop()
+    return out
+
+
+def mk_scfg(g, payload="plain", trees=None, declare=False) -> SCFG:
+    """g: ordered {name: (succ names)}.  payload: plain | bytecode | ast.
+    declare: the DFS back edges are declared on the blocks, as a caller of the
+    dict / YAML front end may do."""
     blocks = {}
+    if declare:
+        import dataclasses
+
+        s = mk_scfg(g, payload, trees)
+        be = dfs_backedges(g)
+        return SCFG({n: dataclasses.replace(b, backedges=tuple(be[n])) if n in be else b for n, b in s.graph.items()})
     for i, (name, ss) in enumerate(g.items()):
         if payload == "plain":
             b = BasicBlock(name=name, _jump_targets=tuple(ss))
